@@ -300,6 +300,7 @@ def oracle(w, mev, timeout_s):
     order = []
     last_seq = None
     sent_of = {}  # caller -> (seq, cid)
+    own_reply_seen = {}  # caller -> event at which a frame with its own sequence number and frame ID arrived while it waited
     inflight = None
     send_done_at = None
     calls = {}  # caller -> name
@@ -343,6 +344,9 @@ def oracle(w, mev, timeout_s):
                 want_tag = got[2] if calls[c] != "nop" else 0
                 if r != f"ok{want_tag}":
                     return f"call {c} returned payload tag {r[2:]}, its own reply carried {want_tag}"
+            if r == "timeout" and c in own_reply_seen:
+                return (f"call {c} ({calls[c]}) timed out although the reply to its own request (sequence number {sent_of[c][0]}, frame ID {sent_of[c][1]}) "
+                        f"arrived while it was waiting (event {own_reply_seen[c]})")
             if r == "timeout":
                 if c not in w._deadline or abs(now - w._deadline[c]) > 1e-6:
                     return f"call {c} timed out at {now}, expected exactly {w._deadline.get(c)} ({timeout_s}s after its send completed)"
@@ -366,6 +370,10 @@ def oracle(w, mev, timeout_s):
             sent_of[best] = (sq, cid)
             inflight = best
             w._sending = best
+        if m and m.startswith("F=") and m[2:].count(":") == 3 and inflight is not None:
+            fs_, fi_, inv_, tg_ = m[2:].split(":")
+            if sent_of.get(inflight) == (int(fs_), int(fi_)):
+                own_reply_seen.setdefault(inflight, ev)
         # a frame that arrives while its call is still inside send_data completes it when the send completes
         if m and m.startswith("F=") and m[2:].count(":") == 3 and inflight is not None:
             fs, fi, inv, tg = m[2:].split(":")
